@@ -146,9 +146,18 @@ impl FromStr for Machine {
         // decompress, but scared of exceeding memory limits / zlib bombs
         let mut decoder = ZlibDecoder::new(compressed.as_slice());
         let mut buf = vec![0; MAX_DECOMPRESSED_SIZE];
-        let bytes_read = decoder
-            .read(&mut buf)
-            .map_err(|e| Error::Machine(e.to_string()))?;
+        // a single read may return before the end of the stream: keep reading
+        // until the stream ends or the (fixed-size) buffer is full
+        let mut bytes_read = 0;
+        while bytes_read < buf.len() {
+            let n = decoder
+                .read(&mut buf[bytes_read..])
+                .map_err(|e| Error::Machine(e.to_string()))?;
+            if n == 0 {
+                break;
+            }
+            bytes_read += n;
+        }
 
         // With binencode, note that "The size of the encoded object will be the
         // same or smaller than the size that the object takes up in memory in a
